@@ -15,4 +15,25 @@ CHECKS = {
                 "Distinct = distinct JSON of (codec, value).",
         "assumptions": COMMON_ASSUME,
     },
+    "C02": {
+        "quick": 800, "thorough": 30000,
+        "rule": "encode-first: rapid draws a valid value of each of the 9 codec types and (3 of 4 cases) stretches one field/argument "
+                "list to a width boundary (254..257, 65534..65537, 70000, 254..300 args) or spoils it (enum out of range, non-ASCII, "
+                "priv>15, stop+watchdog); oracles: encode ok => decode(encode(v)) == v; !fits(v) by the harness' own width table => "
+                "encode errors; Validate(v) != nil => encode errors. decode-first: model-encoded values plain / with trailing bytes / "
+                "mutated / truncated / raw bytes; oracle: decode ok => encode ok and decode(encode(v)) == v. Plus a deterministic "
+                "sweep of every boundary length of every field. Non-trivial: stretched, spoiled, swept or non-plain decode input.",
+        "assumptions": COMMON_ASSUME,
+    },
+    "C04": {
+        "quick": 1500, "thorough": 60000,
+        "fuzz": [{"name": "FuzzC04UnmarshalAll", "seconds": 90}],
+        "rule": "inputs for tacquito.Unmarshal on all 9 types and Request.Fields: raw bytes (0..70000), truncations and single-octet "
+                "corruptions of model-encoded valid values (exhaustive over every cut and every fixed-part octet for a fixed set of "
+                "values), each with exact capacity and with 1..70000 bytes of 0xEE-filled spare capacity behind the input; oracles: "
+                "no panic, Validate()==nil on success, every variable field is a substring of input[:len] and equals the bytes at "
+                "the model's offsets, field bytes total <= len(input), TotalAlloc delta <= 8*len+16KiB (every 8th case). "
+                "Non-trivial: truncated/corrupted/valid input or spare capacity. Thorough adds native coverage-guided fuzzing.",
+        "assumptions": COMMON_ASSUME + ["runtime.MemStats.TotalAlloc delta on a single goroutine with GC parked measures allocation of the call"],
+    },
 }
